@@ -44,7 +44,9 @@ class WU:
         return ok, op, term
 
     def scan(self, body, st):
-        only = len(body) == 1
+        # "otherwise empty" is meant on the wire: members that never write a byte (fields of structs of size 0) may precede a dummy
+        only = len(body) == 1 or (len(body) > 1 and body[-1].kind == "dummy" and all(
+            i.kind == "field" and not i.optional and i.name is not None and self.it.resolve(i.type).kind == "struct" and self.it.fixed_size(i.type) == 0 for i in body[:-1]))
         for ins in body:
             if st.bad:
                 return
